@@ -12,6 +12,7 @@ import (
 	"testing/synctest"
 	"time"
 
+	"github.com/pion/ice/v4/internal/zzmc"
 	"github.com/pion/stun/v3"
 )
 
@@ -489,6 +490,19 @@ func (m *lifeModel) Close() {
 	}
 }
 
+func checkC04cs(c *runCtx, dl time.Time) {
+	if os.Getenv("VERIF_VARIANT") != "instr" {
+		c.capHit("built without instrumentation: the handler-time scenario was not run")
+
+		return
+	}
+	b := 2
+	if !c.quick() {
+		b = 3
+	}
+	csExplore(c, "failed-callback-sees-released-agent", b, dl, nil)
+}
+
 func checkC04(c *runCtx) {
 	c.assume("ticks are issued by the harness (hook H1); the interval arithmetic of the real timer loop is not part of this check",
 		"the code reads the clock only through comparisons with the configured thresholds, so advancing the clock to T/2, T and T+1ns for every threshold T covers every region and both sides of every boundary",
@@ -530,5 +544,71 @@ func checkC04(c *runCtx) {
 	}
 	for _, s := range specs {
 		vtSearch(c, p, vtSpec{Name: s.name, Model: "life", Cfg: s.cfg, Deadline: dl})
+	}
+	if os.Getenv("VERIF_ONLY") == "" {
+		checkC04cs(c, dl)
+	}
+}
+
+// ---------------------------------------------------------------- CS: what a handler sees at the moment it is told "Failed"
+
+// c04failedCallback: "Failed only after selection, pairs and candidates were released" is about the moment the
+// application is told, and the application is told on the notifier's goroutine while the loop goes on. A connected
+// agent falls silent; the tick that declares Failed runs on the loop, the handler on the notifier, under the
+// controlled scheduler (scheduling points in the notifier, the task loop and the candidates' close path).
+func init() {
+	csScenarios["failed-callback-sees-released-agent"] = c04failedCallback
+}
+
+func c04failedCallback() zzmc.Scenario {
+	return zzmc.Scenario{
+		Name:     "failed-callback-sees-released-agent",
+		Focus:    []string{"agent_handlers.go", "taskloop.go", "candidate_base.go"},
+		MaxSteps: 6000,
+		TimeStep: 500 * time.Millisecond,
+		MaxAdv:   400,
+		Setup: func(s *zzmc.Sched) func(string) (string, string) {
+			raw, _ := json.Marshal(soloCfg{Role: "controlling", Locals: 1, Remotes: 1, DiscMs: 1000, FailMs: 1000})
+			sw := newSoloWorld(raw)
+			sw.onSend, sw.onDeliver = nil, nil
+			sw.establish()
+			a := sw.x.agent
+			fail := ""
+			var seen []ConnectionState
+			_ = a.OnConnectionStateChange(func(cs ConnectionState) {
+				seen = append(seen, cs)
+				// (Connected / Disconnected cannot be judged here: the handler runs later than the transition, and by then
+				// the agent may legitimately have failed and released the pair; "released" is monotone, so Failed can)
+				if cs != ConnectionStateFailed {
+					return
+				}
+				// lock-free accessors: what the application can read from inside the handler without waiting for the loop
+				if sp, _ := a.GetSelectedCandidatePair(); sp != nil {
+					fail += "FAILED-NOTIFIED-WHILE-A-PAIR-IS-STILL-SELECTED "
+				}
+				if !sw.x.socks[0].isClosed() {
+					fail += "FAILED-NOTIFIED-WHILE-THE-CANDIDATE-SOCKET-IS-STILL-OPEN "
+				}
+			})
+			s.Go("TICK", func() {
+				time.Sleep(3 * time.Second) // silence beyond disconnected + failed
+				sw.x.contact()
+				zzmc.HarnessPoint("after-tick")
+				sw.x.contact()
+			})
+
+			return func(dead string) (string, string) {
+				got := false
+				for _, cs := range seen {
+					got = got || cs == ConnectionStateFailed
+				}
+				if !got && dead == "" {
+					fail += fmt.Sprintf("FAILED-NEVER-NOTIFIED(%v) ", seen)
+				}
+				_ = a.Close()
+
+				return fmt.Sprint(seen), fail
+			}
+		},
 	}
 }
